@@ -12,7 +12,7 @@ import z3
 from .contract import Contract
 from .pyexpr import ExprMixin, PyDictLit
 from .pymatch import MODE_KINDS, MatchMixin, PyPattern
-from .pyvals import (LE_BYTES, LE_VAL, NONE, Exc, IntSeq, NoneVal, PAbs, PyCache, PyComp, PyUnion, PyAbsList, PyCallable, PyConst, PyGen, PyKey, PyList, PyLit, PyMap, PyObj, PyOpt, PyRuleSeq, PyStrDict,
+from .pyvals import (LE_BYTES, LE_VAL, LE_NUMKIND, NONE, Exc, IntSeq, NoneVal, PAbs, PyCache, PyComp, PyUnion, PyAbsList, PyCallable, PyConst, PyGen, PyKey, PyList, PyLit, PyMap, PyObj, PyOpt, PyRuleSeq, PyStrDict,
                      PyStrSet, PyTuple, StrSeq, Tok, TokSeq, Val, ValSeq, VAL_AXIOMS, NodeAbs, NodeAbsSeq, ident_of, clone, fresh, is_bool, is_int, is_seq,
                      is_str, is_tok, is_val, is_z3, tok_fields, truthy)
 from .pyvc import (VC, St, Tr, Unsupported, dedent, eq, is_keyword, is_soft_keyword, join_lines, lift, str_isspace, str_lower,
@@ -180,7 +180,7 @@ class Executor(MatchMixin, ExprMixin):
         if ty == "pos":
             return [PyTuple([fresh(prefix + "_l", I), fresh(prefix + "_c", I)])]
         if ty == "lit":
-            return [PyLit(fresh(prefix + "_isbytes", z3.BoolSort()), fresh(prefix + "_val", Val))]
+            return [PyLit(fresh(prefix + "_isbytes", z3.BoolSort()), fresh(prefix + "_val", Val), fresh(prefix + "_numkind", I))]
         if ty == "mode":
             k = fresh(prefix + "_kind", I)
             st.assume(z3.And(k >= 0, k <= 3))
@@ -381,7 +381,7 @@ class Executor(MatchMixin, ExprMixin):
             if isinstance(v, PyUnion):
                 return PyUnion(app(v.kind), [app(x) for x in v.alts])
             if isinstance(v, PyLit):
-                return PyLit(app(v.isbytes), app(v.val))
+                return PyLit(app(v.isbytes), app(v.val), app(v.numkind))
             if isinstance(v, PyAbsList):
                 return PyAbsList(app(v.n), app(v.first), app(v.last))
             if is_z3(v):
@@ -466,7 +466,7 @@ class Executor(MatchMixin, ExprMixin):
         if isinstance(v, PyOpt):
             return PyOpt(fresh(prefix + "_none", z3.BoolSort()), self.fresh_like(v.some, prefix))
         if isinstance(v, PyLit):
-            return PyLit(fresh(prefix + "_isbytes", z3.BoolSort()), fresh(prefix + "_val", Val))
+            return PyLit(fresh(prefix + "_isbytes", z3.BoolSort()), fresh(prefix + "_val", Val), fresh(prefix + "_numkind", I))
         if isinstance(v, PyMap):
             m = PyMap.fresh(prefix)
             m.nonempty = fresh(prefix + "_ne", z3.BoolSort())
@@ -572,7 +572,10 @@ class Executor(MatchMixin, ExprMixin):
 
     def s_Raise(self, s, st):
         if s.exc is None:
-            raise Unsupported("bare raise")
+            cur = st.env.get("__handling__")
+            if not isinstance(cur, Exc):
+                raise Unsupported("bare raise outside a handler")
+            return [(st, Flow("raise", cur))]
         return self._after(self.eval(s.exc, st), lambda p, v: [(p, Flow("raise", self.as_exc(v, s)))])
 
     def as_exc(self, v, node):
@@ -718,6 +721,7 @@ class Executor(MatchMixin, ExprMixin):
                     if any(isinstance(n, ast.Name) and exc_matches(fl.value.cls, n.id) for n in names):
                         if h.name:
                             p.env[h.name] = getattr(fl.value, "obj", PyConst(fl.value.cls))
+                        p.env["__handling__"] = fl.value          # what a bare `raise` in the handler re-raises
                         out.extend(self.exec_block(h.body, p))
                         handled = True
                         break
@@ -916,7 +920,7 @@ class Executor(MatchMixin, ExprMixin):
         for inv in lc.get("inv", []):
             try:
                 g = self.spec_eval(inv, st, extra)
-            except Unsupported as u:
+            except (Unsupported, AttributeError, KeyError, TypeError) as u:
                 self.vc(st, z3.BoolVal(False), kind, f"loop invariant `{inv}` cannot be evaluated on this path: {u}", lineno)
                 continue
             self.vc(st, Tr(g), kind, f"loop invariant `{inv}`", lineno)
@@ -1438,7 +1442,7 @@ class Executor(MatchMixin, ExprMixin):
                 if "SyntaxError" in self.classes:
                     ex.obj = self.mk("obj:SyntaxError", "le_exc", st_r)[0]
                     ex.obj.external = True        # carries coordinates of the literal's text: NOT a well-formed error of this parser
-                return [(st, PyLit(LE_BYTES(lift(args[0])), LE_VAL(lift(args[0])))), (st_r, ex)]
+                return [(st, PyLit(LE_BYTES(lift(args[0])), LE_VAL(lift(args[0])), LE_NUMKIND(lift(args[0])))), (st_r, ex)]
             if fn.name == "textwrap.dedent" and len(args) == 1:
                 return [(st, dedent(lift(args[0])))]        # external: uninterpreted str -> str
             if fn.name in MODE_KINDS:
@@ -1922,9 +1926,13 @@ class Executor(MatchMixin, ExprMixin):
             return [(st, z3.Or(conds))]
         if isinstance(v, PyLit):
             if t == "bytes":
-                return [(st, v.isbytes)]
+                return [(st, z3.And(v.numkind == 0, v.isbytes))]
             if t == "str":
-                return [(st, z3.Not(v.isbytes))]
+                return [(st, z3.And(v.numkind == 0, z3.Not(v.isbytes)))]
+            if t.replace(" ", "") in ("float|int", "int|float", "(float,int)", "(int,float)"):
+                return [(st, v.numkind == 1)]
+            if t == "complex":
+                return [(st, v.numkind == 2)]
         if t == "str":
             return [(st, z3.BoolVal(is_str(v)))]
         if t == "tuple":
@@ -2343,8 +2351,9 @@ class Executor(MatchMixin, ExprMixin):
             self.witness_hints = hints
             try:
                 g = self.spec_eval(en, p)
-            except Unsupported as u:
-                self.vc(p, z3.BoolVal(False), "post", f"`{en}` cannot be evaluated on this path: {u}", fn.lineno)
+            except (Unsupported, AttributeError, KeyError, TypeError) as u:
+                # e.g. a clause about `result.value` when the function returned None on this path
+                self.vc(p, z3.BoolVal(False), "post", f"`{en}` cannot be evaluated on this path: {type(u).__name__}: {u}", fn.lineno)
                 continue
             finally:
                 self.witness_hints = None
